@@ -525,8 +525,11 @@ def run(args):
                                       why="%s crashed, hung or wrote no readable output under these -f/+f options: status %s %s" % (tool, rc, tail.decode("latin-1"))))
                 continue
             if rc != 0:
-                # a clean refusal (e.g. a repaired tool rejecting a list beyond the capacity) keeps the property; anything else is reported
-                if over and rc == 1:
+                # a clean refusal keeps the property when the option list is one the manual does not promise to accept: a list beyond
+                # the capacity, or an id that is no header id at all (header ids are bytes: 0..255) - the repaired CMD_FilterList
+                # rejects both as invalid arguments; anything else is reported
+                out_of_range = any(v < 0 or v > 255 for neg, vals in probe["ops"] for v in vals)
+                if (over or out_of_range) and rc == 1:
                     counts["probe_refused"] += 1
                 else:
                     spec_fail.append(dict(meta, sig=None, selected=[], why="%s exit status %s under valid -f/+f options: %s" % (tool, rc, tail.decode("latin-1"))))
